@@ -15,7 +15,7 @@ tab = ("| seeded change | property | what it does | needs to manifest | caught b
 n_yes = sum(1 for r in rows if "| yes |" in r)
 n_after = sum(1 for r in rows if "| after-strengthening |" in r)
 n_no = len(rows) - n_yes - n_after
-tab += "\n\n%d changes: %d caught as the checks stood, %d missed at first and caught after the check was strengthened (what was added is in the last column), %d not caught.\n" % (len(rows), n_yes, n_after, n_no)
+tab += "\n\n%d changes: %d caught as the checks stood, %d missed at first and caught after the check was strengthened (what was added is in the last column), %d not caught (each explained in its row: the change does not violate the property as stated).\n" % (len(rows), n_yes, n_after, n_no)
 p = os.path.join(root, "DESIGN.md")
 s = open(p).read()
 b, e = "<!-- seedmatrix:begin -->", "<!-- seedmatrix:end -->"
